@@ -821,6 +821,50 @@ def grown_tree(fi):
     return None
 
 
+def connecting_path(ctx, fi, G, b, conds, lookup):
+    """Only OVERLAPPING pairs get their edge (`if |c1 & c2| > 0`) and a path of weight-0 edges through the clique list keeps the graph
+    connected: `G.add_edges_from(zip(X, X[1:]), weight=0)`.  Every spanning tree of that graph is one of the complete graph with the same
+    weight, and a maximum-weight one still exists in it (the overlapping edges are all there, the rest of the complete graph weighs 0), so
+    the filter is harmless - provided the path is laid BEFORE the pair loop: `add_edges_from(.., weight=0)` on an existing edge overwrites
+    its weight, so a path laid afterwards resets the overlap of neighbouring cliques to 0."""
+    positive = {'len(set(_g0_0)&set(_g0_1))>0', 'len(set(_g0_1)&set(_g0_0))>0', 'len(set(_g0_0)&set(_g0_1))!=0', 'len(set(_g0_0)&set(_g0_1))>=1',
+                'set(_g0_0)&set(_g0_1)', 'len(set(_g0_0)&set(_g0_1))', 'notset(_g0_0).isdisjoint(_g0_1)', 'notset(_g0_0).isdisjoint(set(_g0_1))',
+                '0<len(set(_g0_0)&set(_g0_1))', 'len(set(_g0_0).intersection(_g0_1))>0'}
+    if len(conds) != 1 or conds[0] not in positive:
+        return conds
+    paths = []
+    for st in fi.body:
+        for c in ast.walk(st):
+            if isinstance(c, ast.Call) and isinstance(c.func, ast.Attribute) and c.func.attr == 'add_edges_from' and U(c.func.value) == G and c.args:
+                paths.append((st, c))
+    if not paths:
+        return conds              # nothing keeps attribute-disjoint components together: reported by the caller
+    if len(paths) != 1:
+        raise AnalysisError('_make_tree: %d unweighted edge collections next to the filtered pair loop' % len(paths))
+    st, c = paths[0]
+    a = c.args[0]
+    wk = next((k.value for k in c.keywords if k.arg == 'weight'), None)
+    X = None
+    if isinstance(a, ast.Call) and U(a.func) == 'zip' and len(a.args) == 2 and isinstance(a.args[0], ast.Name):
+        X = a.args[0].id
+        if U(a.args[1]).replace(' ', '') != '%s[1:]' % X:
+            X = None
+    if X is None or wk is None or U(wk) not in ('0', '0.0', '-0'):
+        raise AnalysisError('_make_tree: the extra edges `%s` next to the filtered pair loop are not a weight-0 path through the clique list' % U(c)[:80])
+    over = [s_ for s_ in fi.body if isinstance(s_, ast.For) and re.fullmatch(r'(itertools\.)?combinations\(%s,2\)' % X, U(s_.iter).replace(' ', ''))
+            and any(isinstance(n, ast.Call) and isinstance(n.func, ast.Attribute) and n.func.attr == 'add_edge' and U(n.func.value) == G for n in ast.walk(s_))]
+    if len(over) != 1:
+        raise AnalysisError('_make_tree: the weight-0 path runs through `%s`, which is not the list whose pairs the loop enumerates' % X)
+    before = fi.body.index(st) < fi.body.index(over[0])
+    ctx.ob('tree-connected', fi, st, before,
+           'only overlapping clique pairs get their edge; a weight-0 path through `%s` keeps the clique graph connected. The path is laid %s'
+           % (X, 'before the pair loop, which then gives the overlapping neighbours their true weight' if before else
+              'AFTER the pair loop: add_edges_from(.., weight=0) overwrites the weight of every edge that already exists, so cliques that are '
+              'neighbours in the list and overlap lose their weight and the spanning tree no longer maximises the separators'),
+           construct='weight-0 path next to the filtered pair loop')
+    return []
+
+
 def check_tree_connected(ctx):
     """the clique graph handed to minimum_spanning_tree has an edge for EVERY pair of maximal cliques, weighted by minus the size of
     the intersection.  Stated on set-builder terms: `for c1, c2 in combinations(..): G.add_edge(c1, c2, weight=w)` and
@@ -926,6 +970,7 @@ def check_tree_connected(ctx):
     # a filter that only excludes a pair of EQUAL cliques is vacuous (the maximal cliques of a graph are pairwise distinct)
     vacuous = {'set(_g0_0)!=set(_g0_1)', 'set(_g0_1)!=set(_g0_0)', '_g0_0!=_g0_1', '_g0_1!=_g0_0', '_g0_0isnot_g0_1', 'notset(_g0_0)==set(_g0_1)'}
     conds = [c for c in conds if c not in vacuous]
+    conds = connecting_path(ctx, fi, G, b, conds, lookup)
     ctx.ob('tree-connected', fi, b.where or fi.node, bool(pairs and ends and not conds),
            'every pair of maximal cliques must get an edge (unconditionally) so that the spanning tree is connected even for '
            'attribute-disjoint components; belief_propagation shares one logZ across all cliques; the source builds %s' % b.show()[:200],
